@@ -11,8 +11,10 @@ from concurrent.futures import ThreadPoolExecutor
 from .common import PY, VERIF, NCPU, driver_env, MachineryError, seed
 
 
-def run_driver(name, wd, tier, nshards=None, args=(), timeout=3600, env=None):
+def run_driver(name, wd, tier, nshards=None, args=(), timeout=None, env=None):
     nshards = nshards or NCPU
+    # a driver process that does not end is a machinery failure (drivers have their own per-case watchdogs: this is the backstop)
+    timeout = timeout or (1500 if tier == 'quick' else 5400)
     if name in ('c06', 'c08', 'c14t'):      # drivers that speak real TLS: the test certificate bin/setup makes (made here if missing)
         from .setup import make_cert
         make_cert()
@@ -20,8 +22,11 @@ def run_driver(name, wd, tier, nshards=None, args=(), timeout=3600, env=None):
 
     def one(i):
         cmd = [PY, '-m', 'harness.drivers.' + name, outs[i], str(i), str(nshards), tier, str(seed())] + list(args)
-        p = subprocess.run(cmd, cwd=VERIF, env=driver_env(env), stdout=subprocess.PIPE, stderr=subprocess.PIPE,
-                           timeout=timeout, text=True, errors='replace')
+        try:
+            p = subprocess.run(cmd, cwd=VERIF, env=driver_env(env), stdout=subprocess.PIPE, stderr=subprocess.PIPE,
+                               timeout=timeout, text=True, errors='replace')
+        except subprocess.TimeoutExpired:
+            raise MachineryError('driver %s shard %d did not end within %d s' % (name, i, timeout))
         if p.returncode != 0:
             raise MachineryError('driver %s shard %d failed rc=%d\n%s\n%s' % (name, i, p.returncode, p.stdout[-2000:], p.stderr[-4000:]))
         return p.stdout
